@@ -24,6 +24,7 @@ RULE = ('random logical trees (names a/p/div/span/x with ASCII case variants, no
         'names and values are random case variants of the tree vocabulary, with and without i/s; plus every HTML-only '
         'pseudo-class on XML documents (plain, and with XHTML-namespaced descendants under a foreign root).  Non-trivial = '
         'expected set neither empty nor everything; distinct = distinct (selector shape, materialisation, tree shape).')
+RULE += (' Round-4 additions: attribute selectors also in the *| and | forms; the HTML-only pseudo-classes on a foreign-root XML document are asked from the document and from its XHTML-namespaced elements (select, match, closest, filter).')
 ASSUMPTIONS = [
     'document kind per docs/api.md (XML iff built by an XML builder; XHTML iff XML and the root is in the XHTML namespace)',
     'case-insensitive *value* comparisons (type, i flag) are generated over ASCII letters and uncased characters only; names '
